@@ -21,10 +21,11 @@ const (
 	wkAttr             // o.f: attribute expression
 	wkUnknownFn        // nosuch(): a call the function table cannot resolve; yields nothing
 	wkUndefName        // undefined identifier (documented v2 difference: an error)
+	wkVoidVariadic     // voidv(31337, 7): reads its variadic arguments through GetParam, returns nothing
 	wkCount
 )
 
-var wKindNames = []string{"void-call", "void-call-with-argument", "attribute-expression", "unresolved-call", "undefined-name"}
+var wKindNames = []string{"void-call", "void-call-with-argument", "attribute-expression", "unresolved-call", "undefined-name", "void-call-with-variadic-arguments"}
 
 // sentinel classes
 const (
@@ -74,6 +75,14 @@ func wFreshFuncs(ctx *Task) {
 		return nil
 	}}
 	many := []*Param{{Name: "p", Variable: true}}
+	ctx.funcs["voidv"] = &Fn{Call: func(c *Task, e *ast.CallExpr) *errchain.PlError {
+		wVoidCalls++
+		if err := CheckPassParam(c, e, many); err != nil {
+			return err
+		}
+		_, err := GetParam(c, e, many, 0)
+		return err
+	}}
 	ctx.funcs["seev"] = &Fn{Call: func(c *Task, e *ast.CallExpr) *errchain.PlError {
 		if err := CheckPassParam(c, e, many); err != nil {
 			return err
@@ -97,6 +106,8 @@ func wValueless(kind int) *ast.Node {
 		return ast.WrapAttrExpr(&ast.AttrExpr{Obj: wIdent("o"), Attr: wIdent("f")})
 	case wkUnknownFn:
 		return wCall("nosuch")
+	case wkVoidVariadic:
+		return wCall("voidv", wInt(31337), wInt(7))
 	}
 	return wIdent("undefined_name")
 }
